@@ -323,19 +323,16 @@ Qed.
 Definition lab63 (c : N) : bytes := repeat c 63.
 Definition unc_witness : name := [lab63 97; lab63 97; lab63 97; repeat 98%N 62].
 
-(* while the relative length is not tested, 63a.63a.63a.62b (255 octets, no root)
-   is returned as a relative name *)
-Theorem uncertain_limit_refuted : uncertain_rel_checked = false ->
-  wf_bytes (wire_rel unc_witness) /\ uncertain_check (wire_rel unc_witness) = Ok false /\
-  length (wire_rel unc_witness) = 255%nat /\ forall n, valid_rel n -> wire_rel unc_witness <> wire_rel n.
-Proof.
-  intros H. split; [apply bytesb_spec; vm_compute; reflexivity|]. split; [|split].
-  - unfold uncertain_check. revert H. unfold uncertain_rel_checked. intros H.
-    first [discriminate H | vm_compute; reflexivity].
-  - vm_compute. reflexivity.
-  - intros n [_ Hl] E. apply (f_equal (@length N)) in E. rewrite (wire_rel_length n) in E.
-    assert (L : length (wire_rel unc_witness) = 255%nat) by (vm_compute; reflexivity). lia.
-Qed.
+(* the source tests the relative length (T1: uncertain_rel_checked), so every
+   relative result is valid; 63a.63a.63a.62b (255 octets, no root) is refused *)
+Theorem uncertain_relative_valid_full b : wf_bytes b -> uncertain_check b = Ok false ->
+  exists n, valid_rel n /\ n <> [] /\ b = wire_rel n.
+Proof. intros Hw H. apply uncertain_relative_valid; [exact Hw|exact H|left; reflexivity]. Qed.
+
+Example uncertain_witness_refused :
+  length (wire_rel unc_witness) = 255%nat /\ uncertain_check (wire_rel unc_witness) = Err W_LongName /\
+  uncertain_check [1; 97]%N = Ok false /\ uncertain_check [1; 97; 0]%N = Ok true /\ uncertain_check [] = Err W_ShortInput.
+Proof. vm_compute. repeat split; reflexivity. Qed.
 
 Theorem chain_uncertain_valid l r : valid_rel l -> valid_abs r ->
   chain_new_uncertain true (wire_len l) (wire_len r + 1) = Ok tt -> valid_abs (l ++ r).
